@@ -13,7 +13,7 @@ LEVEL = "other"
 MODULE = "PropC16"
 THEOREMS = ["C16_script_runs_statement_by_statement", "C16_final_line_break_is_irrelevant",
             "C16_inside_string_nothing_counts", "C16_inside_comment_nothing_counts", "C16_comment_ends_at_line_break",
-            "C16_modes_bind_the_same_globals"]
+            "C16_modes_bind_the_same_globals", "C16_sessions_in_both_modes_partial", "C16_definition_in_file_mode"]
 IMPORTS = ["Base", "Repl", "ReplProofs", "CorrRepl"]
 
 CTX = re.compile(rb"memory context [^\n]*\n")
